@@ -413,6 +413,11 @@ func c16Adopt(c *run.Ctx, st *c16State, stopAgain, useFS bool, stats *c16Stats) 
 	hold := false
 	w.Mu.Lock()
 	w.Broker.State = st.broker.Clone()
+	if stopAgain && c.Rng.Intn(2) == 0 {
+		// the broker does not get to its PUBREL before the next stop: reception
+		// markers, restored ones too, are still there for the next adoption
+		w.Broker.HoldPubrel = true
+	}
 	w.Broker.Connack = func(b *sim.Broker, cn *sim.Conn, p *wire.Packet) []byte {
 		if p.Connect.ClientID == "" && !p.Connect.CleanSession {
 			return wire.Connack(false, 2) // [MQTT-3.1.3-8]
@@ -724,7 +729,18 @@ func c16Adopt(c *run.Ctx, st *c16State, stopAgain, useFS bool, stats *c16Stats) 
 		}
 		return false
 	}
-	recvDone := func() bool { return gotProbe() && len(w.Broker.State.Out) == 0 }
+	recvDone := func() bool {
+		if !gotProbe() {
+			return false
+		}
+		for _, m := range w.Broker.State.Out {
+			if w.Broker.HoldPubrel && m.State == 1 {
+				continue // the broker withholds its PUBREL on purpose
+			}
+			return false
+		}
+		return true
+	}
 	outboundDone := func() bool {
 		for k := range w.Store.CurrentLocked() {
 			if resumed[k] || newKeys[k] {
